@@ -110,6 +110,7 @@ def obsStep (d : ObsDrv) (toks : List String) : Option (ObsDrv × String) :=
     match g.toNat?.bind d.aw.dropGuard with
     | some (a, lw) => some (d.ofAw a, "ok" ++ showWakes a (d.wakeIds [] lw))
     | none => bad
+  | "xcf" :: _ => some (d, "ok")     -- two observables: outside the one-observable model, oracles only
   | ["anextnow", i] =>
     match i.toNat? with
     | none => bad
